@@ -130,6 +130,18 @@ def partitions(n, dests):
     return out
 
 
+def alias_class(idx, dests, names=None):
+    """input class of a failure: for each destination, the operands that share its object"""
+    n = len(idx)
+    names = names or "rabcdefg"[:n]
+    out = []
+    for d in dests:
+        m = [names[k] for k in range(n) if k not in dests and idx[k] == idx[d]]
+        if m:
+            out.append(names[d] + "=" + "".join(m))
+    return ";".join(out) if out else "no destination shared"
+
+
 def pattern_name(idx, names=None):
     n = len(idx)
     names = names or "rabcdefg"[:n]
@@ -434,7 +446,7 @@ def ring_site(ring):
              "ed": "ModularExtended<double>", "zring_I": "ZRing<Integer>", "zring_d": "ZRing<double>", "zring_i64": "ZRing<int64_t>"}
     if ring in names:
         return names[ring]
-    return "Modular<%s,%s>" % tuple(ring.split("_"))
+    return "Modular<integral Storage_t,Compute_t>"        # modular-integral.inl (the ring type is in the case)
 
 
 def gen_ring_cases(rng, exe, ring, p, reps, cases):
@@ -668,6 +680,9 @@ def model_lines(c):
         if c.op in ("gcd5", "gcd4", "divmod"):
             return ["%s %s %s" % (c.op, " ".join(str(i + 1) for i in ix), " ".join(str(v) for v in vs))
                     for ix, vs in ((fresh_idx, c.vals), (c.idx, c.alias_vals()))]
+        if c.op in ("divmod.i64", "divmod.u64"):
+            return ["divmodw %d %s %s %d" % (1 if c.op == "divmod.i64" else 0, " ".join(str(i + 1) for i in ix), " ".join(str(v) for v in vs), c.extra[0])
+                    for ix, vs in ((fresh_idx, c.vals), (c.idx, c.alias_vals()))]
         if c.op in ("powmod.i64", "powmod.i32"):
             return ["powmod %s %d %d %d %d" % (" ".join(str(i + 1) for i in ix), vs[0], vs[1], c.extra[0], vs[2])
                     for ix, vs in ((fresh_idx, c.vals), (c.idx, c.alias_vals()))]
@@ -691,6 +706,8 @@ def model_view(c, mline):
         return q[:c.n], None
     if c.op == "gcd4":
         return t[1:1 + c.n], t[0]
+    if c.op in ("divmod.i64", "divmod.u64"):
+        return t[:2], t[2]
     return t[:c.n], None
 
 
@@ -738,6 +755,19 @@ def spec_expect(c):
     except (ZeroDivisionError, ValueError, OverflowError):
         return None
     return None
+
+
+_lib_lock = __import__("threading").Lock()
+_orig_build_repo_lib = vf.build_repo_lib
+
+
+def _locked_build_repo_lib(*a, **k):
+    """the harness parts are compiled from several threads: build the library once, under a lock"""
+    with _lib_lock:
+        return _orig_build_repo_lib(*a, **k)
+
+
+vf.build_repo_lib = _locked_build_repo_lib
 
 
 def build_all(chk):
@@ -871,7 +901,7 @@ def main(tier, replay=None):
         if outs[i] is None:
             continue
         pat = pattern_name(c.idx, c.names)
-        klass = pat
+        klass = alias_class(c.idx, c.dests, c.names)
         dist_dom[c.dom] = dist_dom.get(c.dom, 0) + 1
         dist_pat[pat] = dist_pat.get(pat, 0) + 1
         chk.count((c.dom, str(c.param), c.op, tuple(c.idx), tuple(str(v) for v in c.vals), tuple(str(e) for e in c.extra)),
@@ -896,23 +926,23 @@ def main(tier, replay=None):
                 if got != v and c.dom in BAL_RINGS and got.lstrip("-").isdigit() and (int(got) - int(v)) % int(c.param) == 0:
                     continue      # canonical range of the balanced rings is C03's subject (known there for even moduli)
                 if got != v:
-                    bad = ("distinct", "distinct objects: position %s is %s, the specification says %s" % (k, got, v), v, got)
+                    bad = ("distinct objects", "distinct objects: position %s is %s, the specification says %s" % (k, got, v), v, got)
         for k in range(c.n):
             if bad is None and k not in c.dests and Fv[k] != vals[k]:
-                bad = ("distinct", "distinct objects: operand %d was modified (%s -> %s)" % (k, vals[k], Fv[k]), vals[k], Fv[k])
+                bad = ("distinct objects", "distinct objects: operand %d was modified (%s -> %s)" % (k, vals[k], Fv[k]), vals[k], Fv[k])
         # (b) the aliased call against the distinct-objects call
         if bad is None:
             for k in c.dests:
                 if Av[k] != Fv[k]:
-                    bad = (pat, "aliased call (%s): destination %d is %s, with distinct objects it is %s" % (pat, k, Av[k], Fv[k]), Fv[k], Av[k])
+                    bad = (klass, "aliased call (%s): destination %d is %s, with distinct objects it is %s" % (pat, k, Av[k], Fv[k]), Fv[k], Av[k])
                     break
         if bad is None and Ar != Fr:
-            bad = (pat, "aliased call (%s): returned %s, with distinct objects %s" % (pat, Ar, Fr), Fr, Ar)
+            bad = (klass, "aliased call (%s): returned %s, with distinct objects %s" % (pat, Ar, Fr), Fr, Ar)
         if bad is None:
             dcl = set(c.idx[k] for k in c.dests)
             for k in range(c.n):
                 if c.idx[k] not in dcl and Av[k] != avals[k]:
-                    bad = (pat, "aliased call (%s): operand %d was modified (%s -> %s)" % (pat, k, avals[k], Av[k]), avals[k], Av[k])
+                    bad = (klass, "aliased call (%s): operand %d was modified (%s -> %s)" % (pat, k, avals[k], Av[k]), avals[k], Av[k])
                     break
         if bad is not None:
             chk.fail_input(c.site, bad[0], d, bad[2], bad[3], bad[1] + " :: " + outs[i])
@@ -924,6 +954,12 @@ def main(tier, replay=None):
                     mv, mr = model_view(c, ml)
                     if mv != iv or (mr is not None and mr != ir):
                         chk.broke("correspondence model/implementation differs on %s %s [%s] %s: model=%s impl=%s" % (c.site, c.param, tag, c.line(), ml, outs[i]))
+    if os.environ.get("C15_EMIT_FINDINGS"):      # development aid: the (site, class) pairs that failed, for review
+        seen = {}
+        for f in chk.failing:
+            seen.setdefault((f["site"], f["klass"]), f)
+        json.dump([{"site": k[0], "klass": k[1], "example": v["case"], "detail": v["detail"]} for k, v in sorted(seen.items())],
+                  open(os.environ["C15_EMIT_FINDINGS"], "w"), indent=1, default=str)
     if os.environ.get("C15_DEBUG"):
         summ = {}
         for f in chk.failing:
